@@ -151,6 +151,11 @@ _add('a:1`', 'aset', '1`', ['1`'], cls='invalid')
 _add('a:1/2', 'aset', '1/2', ['1/2'], cls='odd')
 _add('a:1\x7f', 'aset', '1\x7f', ['1\x7f'], cls='odd')
 
+# settings arguments that hold no setting at all
+_add('e:empty', 'name', '', [], cls='empty')
+_add('e:semi', 'name', ';', [], cls='empty')
+_add('e:semis', 'name', ';;', [], cls='empty')
+
 IDS = sorted(CATALOGUE)
 BY_CLASS = {}
 for _id in IDS:
